@@ -156,6 +156,7 @@ theorem read_your_writes (s : σ) (t : Table) (h : R.Inv s t) (env : Env) (id : 
       exact Table.load_after_store t id c r' hnone
   obtain ⟨_, h3⟩ := R.run_sim _ _ h2 between hbetween
   have hstill := Table.run_load_stable _ (R.specOps between) hstored
+  generalize ((t.stepF (.store id c r') (R.faultOf env)).1.run (R.specOps between)).1 = t3 at h3 hstill
   obtain ⟨h4, _⟩ := R.sim _ _ env' (.load id c) hokL h3
   rw [R.normLoad, hf] at h4
   simp only [Table.stepF, Bool.false_eq_true, if_false, Table.step, hstill] at h4
